@@ -2,6 +2,7 @@ package props
 
 import (
 	"fmt"
+	"go/constant"
 	"go/token"
 	"sort"
 	"strings"
@@ -35,8 +36,6 @@ func runC10(e *Env) {
 	ruleRomanSum(e, "C10.groups")
 	ruleDeleg(e, "C10.deleg", "roman")
 	e.S.Floor("C10.deleg", 12)
-	ruleC10Value(e)
-	e.S.Floor("C10.value", 4)
 	n0 := len(e.S.Obs)
 	ruleC02Zero(e)
 	for i := n0; i < len(e.S.Obs); i++ {
@@ -47,45 +46,8 @@ func runC10(e *Env) {
 	// "every other text is rejected", by the parser and by Valid alike
 	ruleNoMatchRejects(e, "C10.reject", e.Fn("C10.reject", "roman", "DefaultParser"), e.Fn("C10.reject", "roman", "Valid"))
 	e.S.Floor("C10.reject", 2)
-	e.S.Floor("C10.groups", 1)
+	e.S.Floor("C10.groups", 6)
 	e.S.Floor("C10.empty", 2)
-	// the value function(s): in-repo callees of the parser that receive an element of the sub-match slice
-	if dp := e.Fn("C10.case", "roman", "DefaultParser"); dp != nil {
-		alphabet := romanAlphabet(e)
-		seen := map[*ssa.Function]bool{}
-		for _, call := range e.C.Calls(dp, flow.InRepo) {
-			callee := e.C.StaticCallee(&call.Call)
-			for ai, a := range call.Call.Args {
-				u, ok := a.(*ssa.UnOp)
-				if !ok {
-					continue
-				}
-				ia, ok := u.X.(*ssa.IndexAddr)
-				if !ok {
-					continue
-				}
-				if m, ok := ia.X.(*ssa.Call); ok && m.Call.StaticCallee() != nil && isSubmatchCallee(m.Call.StaticCallee().String()) && !seen[callee] {
-					seen[callee] = true
-					idx := ai
-					e.Flow(func(c *flow.Ctx) { c.RuleCaseClosure(callee, idx, alphabet) })
-				}
-			}
-		}
-		// the call may sit in a helper of the parser: fall back to the recorded value function (rename and parameter
-		// reordering followed) and its byte-sequence parameter
-		if len(seen) == 0 {
-			if pg := e.F("roman", "parseGroup"); pg != nil {
-				idx := 0
-				if perm := e.ParamPerm("roman", "parseGroup", pg); perm != nil {
-					idx = perm[0]
-				}
-				if idx < len(pg.Params) {
-					e.Flow(func(c *flow.Ctx) { c.RuleCaseClosure(pg, idx, alphabet) })
-				}
-			}
-		}
-	}
-	e.S.Floor("C10.case", 1)
 	ruleErrZero(e, "C10.errzero", "roman")
 	ruleWrap(e, "C10.wrap", "roman")
 	ruleLimitAccept(e, "C10.limit", "roman")
@@ -553,7 +515,6 @@ func ruleRomanSum(e *Env, rule string) {
 	}
 	site := flow.FnName(dp)
 	pos := e.Pos(dp)
-	pg := e.F("roman", "parseGroup")
 	// the arithmetic of the sum is done in 64 bits: with the input limit raised or disabled the thousands alone
 	// (len × 1000) exceed 32 bits from 2 147 484 letters on, and int/uint are 32 bits wide on 32-bit targets
 	{
@@ -620,76 +581,80 @@ func ruleRomanSum(e *Env, rule string) {
 			e.S.Ok(rule, site, "width", fmt.Sprintf("all %d sums and products of the value are 64 bits wide on this target", n), pos)
 		}
 	}
-	var perm []int
-	if pg != nil {
-		perm = e.ParamPerm("roman", "parseGroup", pg)
+	// the value itself: every spelling of every group, and every combination of the three (ruleRomanWords)
+	ruleRomanWords(e, rule)
+}
+
+// ruleRomanWords: the parser's value, decided on the finite languages of the three group captures instead of on the
+// shape of the value function. roman.DefaultParser is evaluated abstractly — non-empty input within the limit, the
+// thousands capture left symbolic, the match handing back the captures — once for every word of each group's capture
+// language (every spelling in either letter case; the other two groups empty) and once for every combination of
+// upper-case words of the three groups. Whatever the value function looks like (one function of four arguments, a
+// method on a table row, a digit that the caller scales, a switch, a lower-cased comparison), the result must be
+// len(capture 1) × 1000 + the value an independent reading of the word gives: five-symbol then ones, one-symbol
+// before five (4) or ten (9), or ones only, times the unit of its decimal position.
+func ruleRomanWords(e *Env, rule string) {
+	dp := e.Fn(rule, "roman", "DefaultParser")
+	pat, ok := e.pattern(rule, "roman", "pattern")
+	if dp == nil || !ok {
+		return
 	}
-	isCap := func(v pred.Val) (string, bool) {
-		if s, ok := v.(pred.Sym); ok && strings.HasPrefix(s.Name, "cap") {
-			return s.Name, true
-		}
-		return "", false
+	site := flow.FnName(dp)
+	pos := e.Pos(dp)
+	type group struct {
+		one, five, ten byte
+		unit           int64
 	}
-	flat := func(v pred.Val) []string {
-		if sv, ok := v.(*pred.StructV); ok {
-			var out []string
-			for _, f := range sv.Fields {
-				out = append(out, f.String())
-			}
-			return out
+	groups := map[int]group{2: {'C', 'D', 'M', 100}, 3: {'X', 'L', 'C', 10}, 4: {'I', 'V', 'X', 1}}
+	value := func(g group, w string) (int64, bool) {
+		u := strings.ToUpper(w)
+		switch {
+		case u == "":
+			return 0, true
+		case u == string([]byte{g.one, g.five}):
+			return 4 * g.unit, true
+		case u == string([]byte{g.one, g.ten}):
+			return 9 * g.unit, true
 		}
-		return []string{v.String()}
+		n := int64(0)
+		rest := u
+		if rest[0] == g.five {
+			n, rest = 5, rest[1:]
+		}
+		if len(rest) > 4 || strings.Trim(rest, string([]byte{g.one})) != "" {
+			return 0, false
+		}
+		return (n + int64(len(rest))) * g.unit, true
 	}
-	fallback := func(fn *ssa.Function, args []pred.Val) (pred.Val, bool, error) {
-		// the value function: a function of the module that receives one capture
-		capName := ""
-		for _, a := range args {
-			if n, ok := isCap(a); ok {
-				if capName != "" {
-					return nil, false, nil
-				}
-				capName = n
-			}
+	words := map[int][]string{}
+	for k := 2; k <= 4; k++ {
+		sub, err := lang.CaptureSub(pat, k)
+		if err != nil {
+			e.S.Unk(rule, "roman.pattern", fmt.Sprintf("capture %d", k), err.Error(), "")
+			return
 		}
-		if capName == "" {
-			return nil, false, nil
+		prefix := ""
+		if strings.HasPrefix(pat, "(?i)") && !strings.HasPrefix(sub, "(?i") {
+			prefix = "(?i)"
 		}
-		// only the function C10.value decides stands for "the value of a group": anything else on the way (a wrapper
-		// that rescales, a second table) is evaluated, not believed
-		if pg == nil || flow.Origin(fn) != flow.Origin(pg) {
-			return nil, false, nil
+		sp, ds, err := lang.Build(prefix + `^(?:` + sub + `)$`)
+		if err != nil {
+			e.S.Unk(rule, "roman.pattern", fmt.Sprintf("capture %d", k), err.Error(), "")
+			return
 		}
-		ordered := args
-		if pg != nil && flow.Origin(fn) == flow.Origin(pg) && perm != nil && len(perm) == len(args) {
-			ordered = make([]pred.Val, len(args))
-			for i, j := range perm {
-				ordered[i] = args[j]
-			}
+		ws, finite := sp.Words(ds[0], 5000)
+		if !finite {
+			e.S.Unk(rule, "roman.pattern", fmt.Sprintf("capture %d", k), "the capture's language is not a finite list of ASCII words", "")
+			return
 		}
-		parts := []string{capName}
-		for _, a := range ordered {
-			if _, ok := isCap(a); ok {
-				continue
-			}
-			parts = append(parts, flat(a)...)
-		}
-		return pred.Term{Fn: "value{" + strings.Join(parts, ",") + "}"}, true, nil
+		words[k] = ws
 	}
-	caps := func() *pred.SliceV {
+	bytesOf := func(w string) *pred.SliceV {
 		sv := &pred.SliceV{}
-		for i := 0; i < 5; i++ {
-			sv.Elems = append(sv.Elems, &pred.Cell{V: pred.Sym{Name: fmt.Sprintf("cap%d", i)}, Name: "capture"})
+		for i := 0; i < len(w); i++ {
+			sv.Elems = append(sv.Elems, &pred.Cell{V: pred.Const{V: constant.MakeInt64(int64(w[i]))}, Name: "byte"})
 		}
 		return sv
-	}
-	sums := map[string]pred.Summary{}
-	for _, n := range []string{"(*regexp.Regexp).FindSubmatch", "(*regexp.Regexp).FindStringSubmatch"} {
-		sums[n] = func(ev *pred.Evaluator, args []pred.Val) (pred.Val, error) {
-			if len(args) != 2 || args[1].String() != "input" {
-				return nil, &pred.Undecided{Reason: "the pattern is not matched against the whole input"}
-			}
-			return caps(), nil
-		}
 	}
 	fixed := func(a, b pred.Val) (int, bool, bool) {
 		as, bs := a.String(), b.String()
@@ -699,39 +664,49 @@ func ruleRomanSum(e *Env, rule string) {
 		case as == "*roman.MaxInputLength" && bs == "0":
 			return 0, true, true
 		case as == "len(input)" && bs == "*roman.MaxInputLength":
-			return 1, true, true // a non-empty text against the disabled limit (0): longer, and not rejected
+			return 1, true, true
 		case as == "*roman.MaxInputLength" && bs == "len(input)":
 			return -1, true, true
 		}
 		return 0, false, false
 	}
-	// an empty capture may be skipped before the value function is asked (it is worth 0: C10.value's len==0 leaf)
-	keyOf := func(a, b pred.Val) (string, bool) {
-		if tm, ok := a.(pred.Term); ok && tm.Fn == "len" && len(tm.Args) == 1 {
-			if n, ok := isCap(tm.Args[0]); ok && b.String() == "0" {
-				return "len(" + n + ")==0", true
+	noAtoms := func(a, b pred.Val) (string, bool) { return "", false }
+	eval := func(caps [5]string) (constPart int64, symbolic []string, err error) {
+		sums := map[string]pred.Summary{}
+		for _, n := range []string{"(*regexp.Regexp).FindSubmatch", "(*regexp.Regexp).FindStringSubmatch"} {
+			sums[n] = func(ev *pred.Evaluator, args []pred.Val) (pred.Val, error) {
+				if len(args) != 2 || args[1].String() != "input" {
+					return nil, &pred.Undecided{Reason: "the pattern is not matched against the whole input"}
+				}
+				sv := &pred.SliceV{}
+				for i := 0; i < 5; i++ {
+					var v pred.Val
+					switch i {
+					case 0, 1:
+						v = pred.Sym{Name: fmt.Sprintf("cap%d", i)}
+					default:
+						v = bytesOf(caps[i])
+					}
+					sv.Elems = append(sv.Elems, &pred.Cell{V: v, Name: "capture"})
+				}
+				return sv, nil
 			}
 		}
-		return "", false
-	}
-	mk := func() []pred.Val { return []pred.Val{pred.Sym{Name: "input"}, pred.Sym{Name: "r"}} }
-	leaves, err := extractTreeFull(e.P.SSA, dp, mk, sums, fixed, keyOf, binDomain, e.globalTables(), fallback)
-	if err != nil {
-		e.S.Unk(rule, site, "sum", "not evaluable: "+err.Error(), pos)
-		return
-	}
-	bad, und := "", ""
-	for _, lf := range leaves {
-		if lf.Err != nil {
-			und = lf.Err.Error()
-			break
+		mk := func() []pred.Val { return []pred.Val{pred.Sym{Name: "input"}, pred.Sym{Name: "r"}} }
+		leaves, err := extractTreeFull(e.P.SSA, dp, mk, sums, fixed, noAtoms, binDomain, e.globalTables(), nil)
+		if err != nil {
+			return 0, nil, err
 		}
-		t, ok := lf.Out.Ret.(pred.Tuple)
-		if lf.Out.Panic || !ok || len(t) != 2 || t[1].String() != "nil" {
-			bad = "a matched input does not yield (number, nil): " + lf.Out.Ret.String()
-			break
+		if len(leaves) != 1 || leaves[0].Err != nil {
+			if len(leaves) > 0 && leaves[0].Err != nil {
+				return 0, nil, leaves[0].Err
+			}
+			return 0, nil, fmt.Errorf("%d abstract valuations for concrete captures", len(leaves))
 		}
-		have := map[string]int{}
+		t, ok := leaves[0].Out.Ret.(pred.Tuple)
+		if leaves[0].Out.Panic || !ok || len(t) != 2 || t[1].String() != "nil" {
+			return 0, nil, fmt.Errorf("a matched input does not yield (number, nil): %v", leaves[0].Out.Ret)
+		}
 		var walk func(v pred.Val)
 		walk = func(v pred.Val) {
 			if tm, ok := v.(pred.Term); ok && tm.Fn == "+" && len(tm.Args) == 2 {
@@ -739,39 +714,96 @@ func ruleRomanSum(e *Env, rule string) {
 				walk(tm.Args[1])
 				return
 			}
-			if c, ok := v.(pred.Const); ok && c.V != nil && c.V.ExactString() == "0" {
+			if k, ok := intOf(v); ok {
+				constPart += k
+				return
+			}
+			if af, ok := v.(pred.Affine); ok { // a symbolic term plus a constant
+				constPart += af.C
+				walk(af.X)
 				return
 			}
 			s := v.String()
 			if s == "*(1000,len(cap1))" {
 				s = "*(len(cap1),1000)"
 			}
-			have[s]++
+			symbolic = append(symbolic, s)
 		}
 		walk(t[0])
-		want := map[string]string{"*(len(cap1),1000)": "", "value{cap2,100,68,77}()": "cap2", "value{cap3,10,76,67}()": "cap3", "value{cap4,1,86,88}()": "cap4"}
-		for w, capN := range want {
-			n := have[w]
-			delete(have, w)
-			emptyCap := capN != "" && lf.Assign["len("+capN+")==0"] == 0 && func() bool { _, asked := lf.Assign["len("+capN+")==0"]; return asked }()
-			if n == 1 || n == 0 && emptyCap {
-				continue
+		return constPart, symbolic, nil
+	}
+	check := func(caps [5]string, want int64) string {
+		got, sym, err := eval(caps)
+		switch {
+		case err != nil:
+			return "?" + err.Error()
+		case len(sym) != 1 || sym[0] != "*(len(cap1),1000)":
+			return fmt.Sprintf("the thousands term is %v, documented len(capture 1) × 1000 once", sym)
+		case got != want:
+			return fmt.Sprintf("the groups %q %q %q are worth %d, the parser adds %d", caps[2], caps[3], caps[4], want, got)
+		}
+		return ""
+	}
+	// one group at a time, every spelling
+	for k := 2; k <= 4; k++ {
+		n, bad := 0, ""
+		for _, w := range words[k] {
+			want, ok := value(groups[k], w)
+			if !ok {
+				bad = fmt.Sprintf("the capture language holds %q, which is not a numeral group (C10.lang decides the language)", w)
+				break
 			}
-			bad = fmt.Sprintf("the term %s occurs %d time(s) in the parsed number {%s}", w, n, lf.String())
+			var caps [5]string
+			caps[k] = w
+			if msg := check(caps, want); msg != "" {
+				bad = msg
+				break
+			}
+			n++
 		}
-		for extra := range have {
-			bad = fmt.Sprintf("the parsed number contains the foreign term %s {%s}", extra, lf.String())
+		construct := fmt.Sprintf("capture %d words", k)
+		switch {
+		case strings.HasPrefix(bad, "?"):
+			e.S.Unk(rule, site, construct, "not evaluable: "+bad[1:], pos)
+		case bad != "":
+			e.S.Bad(rule, site, construct, bad, pos, "")
+		default:
+			e.S.Ok(rule, site, construct, fmt.Sprintf("all %d spellings of the group (either letter case) add their documented value to len(capture 1) × 1000", n), pos)
 		}
-		if bad != "" {
-			break
+	}
+	// the three groups together (upper-case spellings): the value is the sum, no interaction between positions
+	upper := func(ws []string) []string {
+		var out []string
+		for _, w := range ws {
+			if w == strings.ToUpper(w) {
+				out = append(out, w)
+			}
+		}
+		return out
+	}
+	n, bad := 0, ""
+	for _, h := range upper(words[2]) {
+		for _, t := range upper(words[3]) {
+			for _, u := range upper(words[4]) {
+				if bad != "" {
+					continue
+				}
+				vh, _ := value(groups[2], h)
+				vt, _ := value(groups[3], t)
+				vu, _ := value(groups[4], u)
+				if msg := check([5]string{2: h, 3: t, 4: u}, vh+vt+vu); msg != "" {
+					bad = msg
+				}
+				n++
+			}
 		}
 	}
 	switch {
-	case und != "":
-		e.S.Unk(rule, site, "sum", "not evaluable: "+und, pos)
+	case strings.HasPrefix(bad, "?"):
+		e.S.Unk(rule, site, "combined groups", "not evaluable: "+bad[1:], pos)
 	case bad != "":
-		e.S.Bad(rule, site, "sum", bad+"; documented len(capture 1)×1000 + value(capture 2; 100,'D','M') + value(capture 3; 10,'L','C') + value(capture 4; 1,'V','X'), each once", pos, "")
+		e.S.Bad(rule, site, "combined groups", bad, pos, "")
 	default:
-		e.S.Ok(rule, site, "sum", "= len(capture 1)×1000 + value(capture 2; 100,'D','M') + value(capture 3; 10,'L','C') + value(capture 4; 1,'V','X')", pos)
+		e.S.Ok(rule, site, "combined groups", fmt.Sprintf("all %d combinations of upper-case hundreds, tens and units spellings are worth the sum of the three", n), pos)
 	}
 }
